@@ -1,6 +1,6 @@
 """X04 - growth of the specification: the sqrt(N) column store of the two column-wise dynamic programs
 (PedigreeDPTable, GenotypeDPTable).  Hook H2: WHATSHAP_VERIF_DPTRACE (src/veriftrace.h, commit c25295c) logs one
-line per store event (begin / compute / bcompute / fcompute / read / free / end).  Checkpoint.tla holds the contract
+line per store event (begin / compute / bcompute / fcompute / read / free / end).  ColumnStore.tla holds the contract
 and an implementation-shaped transcription of both schedules; X04_Trace.tla validates every logged event against
 the contract.  Not a registered property (C01 and C08 judge the RESULTS of the same tables)."""
 import os
@@ -17,7 +17,7 @@ RULE = ("one construction of a real PedigreeDPTable or GenotypeDPTable on a chai
         "(every N from 1 to the tier's bound, plus larger square / off-square N; reads of 2-4 adjacent columns, random "
         "alleles and weights, single individual and trio, with or without an explicit position list that adds read-free "
         "columns) with the store hook on; every logged event is one trace line.  The event sequence of each run is also "
-        "compared with the sequence the transcribed schedule of Checkpoint.tla produces for that N (emitted by TLC); the "
+        "compared with the sequence the transcribed schedule of ColumnStore.tla produces for that N (emitted by TLC); the "
         "number of equal schedules is reported, a different but contract-abiding schedule is not a violation.  Non-trivial = "
         "a run with N >= 4 (k >= 2: columns are freed and recomputed)")
 ASSUMPTIONS = [
@@ -40,9 +40,9 @@ def design_mc(ctx):
         cfg = tlc.write_cfg(os.path.join(ctx.workdir, f"ck_{variant}.cfg"), spec="Spec",
                             consts={"MaxN": 40 if ctx.quick else 90, "Variant": f'"{variant}"'},
                             invariants=["Preconditions", "SpaceBound", "TimeBound", "Complete"], properties=["Terminates"])
-        r = tlc.model_check("MC_Checkpoint", cfg=cfg, workers=8)
+        r = tlc.model_check("MC_ColumnStore", cfg=cfg, workers=8)
         if expect:
-            r["what"] = "Checkpoint: both transcribed schedules obey the contract (preconditions, space, time, completeness) and terminate"
+            r["what"] = "ColumnStore: both transcribed schedules obey the contract (preconditions, space, time, completeness) and terminate"
             out.append(r)
         else:
             if r["ok"]:
@@ -56,7 +56,7 @@ def scenarios(ctx):
     maxn = _maxn(ctx)
     cfg = tlc.write_cfg(os.path.join(ctx.workdir, "ck_emit.cfg"), spec="Spec",
                         consts={"MaxN": maxn, "Variant": '"code"'}, invariants=["Emit"])
-    hs, _ = tlc.behaviours("MC_Checkpoint", cfg)
+    hs, _ = tlc.behaviours("MC_ColumnStore", cfg)
     model = {(h["tbl"], h["n"]): [[o[0], o[1]] for o in h["ops"]] for h in hs}
     ctx.notes["model_schedules_emitted"] = len(model)
     scs = []
@@ -211,7 +211,7 @@ def selftest_corrupt(events):
 
 
 MANIFEST = {
-    "text": "Checkpoint.tla states the contract of the sqrt(N) column store of both DP tables (a column is computed only next to "
+    "text": "ColumnStore.tla states the contract of the sqrt(N) column store of both DP tables (a column is computed only next to "
             "a stored neighbour and never over a stored one, read only while stored, the backtrace / forward pass reads every "
             "column once in order, at most N div k + 2k + 1 columns are alive, none is computed more than twice) and transcribes "
             "both schedules action by action; TLC checks the transcription against the contract for every N up to the bound "
